@@ -1,6 +1,8 @@
 package hval
 
 import (
+	"sort"
+
 	"verifh/hparse"
 	"verifh/verifrt"
 
@@ -168,4 +170,64 @@ func hasVariableUse(doc *ast.QueryDocument) bool {
 		})
 	}
 	return found
+}
+
+// SchemaReadOnly: C11 reduced to a per-call safety property. The schema is
+// loaded, then frozen; Validate with all rules runs on the symbolic document.
+// Under the engine any store into a frozen object (schema definitions, package
+// level state) is reported as "frozen-write". Natively the schema is dumped
+// before and after and compared.
+func SchemaReadOnly() {
+	verifrt.SetOpt("merge", 0)
+	verifrt.SetOpt("unwind", 200)
+	schema := LoadTestSchema(verifrt.Param("schema", 0))
+	before := ""
+	if verifrt.Native() {
+		before = dumpSchema(schema)
+	}
+	verifrt.Freeze()
+	b := &B{}
+	Shapes[verifrt.Param("shape", 0)](b)
+	src := hparse.Install(b.toks)
+	doc, err := parser.ParseQuery(src)
+	if err != nil {
+		verifrt.Fail("H.shape-does-not-parse")
+	}
+	errs := validator.Validate(schema, doc)
+	if len(errs) == 0 {
+		verifrt.Cover("C11.validated-ok")
+	} else {
+		verifrt.Cover("C11.validated-with-errors")
+	}
+	if verifrt.Native() {
+		verifrt.Assert(dumpSchema(schema) == before, "C11.schema-unchanged")
+	}
+}
+
+// dumpSchema renders everything reachable from the schema (native only).
+func dumpSchema(s *ast.Schema) string {
+	var names []string
+	for n := range s.Types {
+		names = append(names, n)
+	}
+	sort.Strings(names)
+	out := ""
+	for _, n := range names {
+		out += ast.Dump(s.Types[n]) + "\n"
+		for _, p := range s.PossibleTypes[n] {
+			out += " possible:" + p.Name
+		}
+		for _, p := range s.Implements[n] {
+			out += " implements:" + p.Name
+		}
+	}
+	var dn []string
+	for n := range s.Directives {
+		dn = append(dn, n)
+	}
+	sort.Strings(dn)
+	for _, n := range dn {
+		out += ast.Dump(s.Directives[n]) + "\n"
+	}
+	return out
 }
